@@ -21,7 +21,8 @@ def load_prop(prop: str):
 
 def run_batch(args) -> dict:
     mod = load_prop(args.prop)
-    cfg = {"tier": args.tier}
+    base_cfg = {"tier": args.tier, "batch_index": args.batch_index, "batches": args.batches}
+    cfg = dict(base_cfg)
     known = set(json.loads(args.known)) if args.known else set()
     t0 = time.monotonic()
     out = {
@@ -46,6 +47,7 @@ def run_batch(args) -> dict:
             break
         run_seed = H(args.batch_seed, r)
         ch = Choices(seed=run_seed)
+        cfg = dict(base_cfg, run_index=r)
         try:
             ctx = execute(mod, ch, cfg)
         except Exception as e:  # noqa: BLE001  harness error: generator/model/oracle bug
@@ -83,15 +85,15 @@ def run_batch(args) -> dict:
                 kn["count"] += 1
             elif k not in new_keys:
                 new_keys[k] = {"v": v, "choices": list(ch.trace), "run_seed": run_seed, "r": r,
-                               "count": 1}
+                               "count": 1, "cfg": cfg}
             else:
                 new_keys[k]["count"] += 1
                 if len(ch.trace) < len(new_keys[k]["choices"]):
-                    new_keys[k].update(v=v, choices=list(ch.trace), run_seed=run_seed, r=r)
+                    new_keys[k].update(v=v, choices=list(ch.trace), run_seed=run_seed, r=r, cfg=cfg)
     # minimise new violations (same interpreter, same hash seed)
     per_key_budget = max(3.0, min(20.0, args.min_budget_s / max(1, len(new_keys))))
     for k, rec in sorted(new_keys.items()):
-        mins, mctx, execs = minimise(mod, rec["choices"], k, cfg, budget_s=per_key_budget)
+        mins, mctx, execs = minimise(mod, rec["choices"], k, rec["cfg"], budget_s=per_key_budget)
         if mins is None:
             out["harness_errors"].append(
                 {"run_seed": rec["run_seed"], "error": f"violation {k} did not reproduce in-process",
@@ -102,7 +104,7 @@ def run_batch(args) -> dict:
             "key": k, "property": args.prop, "clause": v["clause"], "cls": v["cls"],
             "detail": v["detail"], "run_seed": rec["run_seed"], "count": rec["count"],
             "choices": mins, "orig_len": len(rec["choices"]), "min_execs": execs,
-            "log_digest": mctx.log_digest(), "trace": mctx.events, "profile": mctx.profile,
+            "log_digest": mctx.log_digest(), "trace": mctx.events, "profile": mctx.profile, "cfg": rec["cfg"],
             "all_keys": mctx.keys(),
         })
     out["distinct"] = len(digests)
@@ -126,7 +128,7 @@ def run_replay(args) -> dict:
     with open(args.replay) as f:
         rp = json.load(f)
     mod = load_prop(rp["property"])
-    cfg = {"tier": rp.get("tier", "quick"), "replay": True}
+    cfg = dict(rp.get("cfg") or {"tier": rp.get("tier", "quick")}, replay=True)
     ctx = execute(mod, Choices(replay=list(rp["choices"])), cfg)
     keys = ctx.keys()
     return {"replay": args.replay, "keys": keys, "expected_key": rp["key"],
@@ -142,6 +144,8 @@ def main(argv=None):
     p.add_argument("--tier", default="quick")
     p.add_argument("--batch-seed", type=int, default=0)
     p.add_argument("--runs", type=int, default=100)
+    p.add_argument("--batch-index", type=int, default=0)
+    p.add_argument("--batches", type=int, default=1)
     p.add_argument("--budget-s", type=float, default=60.0)
     p.add_argument("--min-budget-s", type=float, default=20.0)
     p.add_argument("--known", default="")
